@@ -130,6 +130,7 @@ OnResult(S, e) == LET g == S.g  anc == DepOf(g, END) IN
 OnError(S, e) == LET g == S.g IN
   IF e.class = "hang" THEN Bad(S, "run-hangs")
   ELSE IF e.class = "escaped-panic" THEN Bad(S, "panic-escaped-the-run")
+  ELSE IF e.class = "stuck" THEN Bad(S, "run-stuck-a-completion-was-lost")        \* nothing running, nothing to start, END not reached
   ELSE IF e.class \notin {"node", "panic"} THEN Bad(S, "unexpected-error")
   ELSE IF e.node \notin S.failed \/ FailKindOf(g, e.node) # (IF e.class = "node" THEN "err" ELSE "panic") THEN Bad(S, "error-names-a-node-that-did-not-fail")
   ELSE IF IsBatch(g) /\ Running(S) # {} THEN Bad(S, "return-while-step-node-running")
